@@ -292,8 +292,13 @@ fn emit(out: &mut impl Write, loader: &str, loc: &str, key: &str, off: u64, len:
     writeln!(out, "{}|{}|{}|{}|{}", loader, hex(loc.as_bytes()), key, off, len).unwrap();
 }
 
-fn interesting_numbers(flen: u64, full: bool) -> Vec<u64> {
-    if !full {
+fn interesting_numbers(flen: u64, level: u8) -> Vec<u64> {
+    if level == 0 {
+        let mut v = vec![0, 1, flen, flen + 1, 8193, 1 << 32, (1u64 << 63) - 1, u64::MAX - flen, u64::MAX];
+        v.dedup();
+        return v;
+    }
+    if level == 1 {
         let mut v = vec![0, 1, 8, 8192, 8193, flen.saturating_sub(1), flen, flen + 1, 1 << 32, 1 << 40,
             (1u64 << 63) - 1, 1 << 63, u64::MAX, u64::MAX - flen, (u64::MAX - flen).wrapping_add(1)];
         v.dedup();
@@ -389,7 +394,7 @@ fn generate(seed: u64, n: usize, tier: &str, out: &mut impl Write) {
     // 3. ranges: offset/length grids on the good files, all loaders
     let targets: [(&str, u64); 5] = [("w.data", 64), ("empty.data", 0), ("one.data", 1), ("p.data", 255), ("big.data", 20000)];
     for (name, flen) in targets {
-        let nums = interesting_numbers(flen, tier == "thorough" || name == "w.data");
+        let nums = interesting_numbers(flen, if tier == "thorough" { 2 } else if name == "w.data" { 1 } else { 0 });
         for ld in loaders {
             let big = name == "big.data";
             for &o in &nums {
@@ -418,7 +423,7 @@ fn generate(seed: u64, n: usize, tier: &str, out: &mut impl Write) {
         let (o, l) = match rng.below(6) {
             0 => (rng.pick(&small), rng.pick(&small)),
             1 => (rng.below(70), rng.below(70)),
-            2 => { let nums = interesting_numbers(flen, true); (rng.pick(&nums), rng.pick(&nums)) }
+            2 => { let nums = interesting_numbers(flen, 2); (rng.pick(&nums), rng.pick(&nums)) }
             3 => { let k = rng.below(80); (u64::MAX - k, k + rng.below(70)) }
             4 => { let k = rng.below(80); (k + rng.below(70), u64::MAX - k) }
             _ => (rng.next() >> rng.below(64), rng.next() >> rng.below(64)),
